@@ -1,9 +1,11 @@
 package main
 
 import (
+	"encoding/json"
 	"flag"
 	"fmt"
 	"os"
+	"path/filepath"
 	"sort"
 	"strings"
 	"time"
@@ -116,23 +118,54 @@ func cmdDump(args []string) int {
 	return 0
 }
 
+func manifestLevel(prop string) string {
+	b, err := os.ReadFile(filepath.Join(verifDir, "MANIFEST.json"))
+	if err != nil {
+		return "other"
+	}
+	var m struct {
+		Checks []struct {
+			PropertyID   string `json:"property_id"`
+			LevelClaimed struct {
+				Category string `json:"category"`
+			} `json:"level_claimed"`
+		} `json:"checks"`
+	}
+	if json.Unmarshal(b, &m) != nil {
+		return "other"
+	}
+	for _, c := range m.Checks {
+		if c.PropertyID == prop && c.LevelClaimed.Category != "" {
+			return c.LevelClaimed.Category
+		}
+	}
+	return "other"
+}
+
 func cmdCheck(args []string) int {
 	fs := flag.NewFlagSet("check", flag.ExitOnError)
 	repo := fs.String("repo", "/repo", "repository")
 	tier := fs.String("tier", "quick", "quick|thorough")
-	all := fs.Bool("all", false, "run every obligation regardless of tag")
 	verbose := fs.Bool("v", false, "verbose")
+	noEvidence := fs.Bool("no-evidence", false, "do not write evidence/replay files (selftest)")
 	var prop string
 	if len(args) > 0 && !strings.HasPrefix(args[0], "-") {
 		prop = args[0]
 		args = args[1:]
 	}
 	fs.Parse(args)
+	if t := os.Getenv("VERIF_TIER"); t == "quick" || t == "thorough" {
+		*tier = t
+	}
 	start := time.Now()
 	r, err := generate(*repo)
 	if err != nil {
-		fmt.Fprintln(os.Stderr, err)
-		return 2
+		fmt.Println("govc: cannot load /repo with -tags verif:", err)
+		fmt.Printf("VIOLATION property=%s replay=%s no-failing-input-found\n", prop, "/verif/replays/"+prop+"-load-error.json")
+		if !*noEvidence {
+			writeReplay(&Replay{Property: prop, Obligation: "load-error", Kind: "load", Description: "the repository (with the contract files) no longer type-checks", Status: "error", SolverOut: err.Error(), NoInput: true})
+		}
+		return 1
 	}
 	timeout := 10 * time.Second
 	if *tier == "thorough" {
@@ -140,35 +173,202 @@ func cmdCheck(args []string) int {
 	}
 	var sel []*Obligation
 	for _, ob := range r.obls {
-		if *all || hasTag(ob.Tags, prop) {
+		if prop == "all" || hasTag(ob.Tags, prop) {
 			sel = append(sel, ob)
 		}
 	}
+	extra := r.extraObligations(prop, *tier)
+	sel = append(sel, extra...)
 	runParallel(len(sel), 6, func(i int) {
 		ob := sel[i]
 		if ob.Status != "" {
 			return
 		}
+		if ob.Run != nil {
+			ob.Run(ob, timeout)
+			return
+		}
 		r.owner[ob].solveObligation(ob, timeout)
 	})
 	sort.SliceStable(sel, func(i, j int) bool { return sel[i].Name < sel[j].Name })
-	failed := 0
+	kfs := loadKnownFindings()
+	var samples []map[string]interface{}
+	var known []map[string]string
+	funcs := map[string]bool{}
+	var solverMs int64
+	nObl, nDis, nCanary, nBounded, nBoundedOK, violations := 0, 0, 0, 0, 0, 0
+	backends := map[string]int{}
+	var boundedList []map[string]interface{}
+	var genErrors []string
 	for _, ob := range sel {
-		if ob.Status != "discharged" {
-			failed++
-			fmt.Printf("FAILED     %s  %s\n           %s\n", ob.Name, ob.Descr, strings.ReplaceAll(ob.Detail, "\n", "\n           "))
-		} else if *verbose {
-			fmt.Printf("discharged %s (%s, %d ms)\n", ob.Name, ob.Solver, ob.Ms)
+		funcs[ob.Func] = true
+		solverMs += ob.Ms
+		if ob.Kind == "canary" {
+			nCanary++
+			if ob.Status != "discharged" {
+				violations++
+				p, _ := maybeReplay(*noEvidence, &Replay{Property: prop, Obligation: ob.Name, Kind: ob.Kind, Description: ob.Descr, Status: "vacuous", SolverOut: ob.Detail, NoInput: true})
+				fmt.Printf("VIOLATION property=%s replay=%s no-failing-input-found\n", prop, p)
+			}
+			continue
 		}
+		if ob.Bounded {
+			nBounded++
+			boundedList = append(boundedList, map[string]interface{}{"obligation": ob.Name, "domain": ob.Domain, "cases": ob.Cases, "status": ob.Status})
+		}
+		if ob.Status == "discharged" {
+			if ob.Bounded {
+				nBoundedOK++
+			} else {
+				nObl++
+				nDis++
+				for _, sname := range strings.Split(ob.Solver, ",") {
+					backends[sname]++
+				}
+				if len(samples) < 60 {
+					samples = append(samples, map[string]interface{}{"obligation": ob.Name, "kind": ob.Kind, "backend": ob.Solver, "ms": ob.Ms, "what": ob.Descr})
+				}
+			}
+			if *verbose {
+				fmt.Printf("discharged %s (%s, %d ms)\n", ob.Name, ob.Solver, ob.Ms)
+			}
+			continue
+		}
+		// failed
+		if kf := findingFor(kfs, prop, ob.Name); kf != nil {
+			fmt.Printf("KNOWN-FINDING: property=%s obligation=%s %s\n", prop, ob.Name, kf.Text)
+			known = append(known, map[string]string{"obligation": ob.Name, "finding": kf.Text, "status": firstLine(ob.Detail)})
+			continue
+		}
+		if !ob.Bounded {
+			nObl++
+		}
+		violations++
+		rp := &Replay{Property: prop, Obligation: ob.Name, Kind: ob.Kind, Description: ob.Descr, Position: ob.Pos, Status: ob.FailStatus, SolverOut: ob.Detail, Query: ob.FailText, NoInput: ob.Witness == "",
+			Witness: ob.Witness, WitnessNote: ob.WitnessNote, ReplayTest: ob.ReplayTest, ReplayPkg: ob.ReplayPkg}
+		p, _ := maybeReplay(*noEvidence, rp)
+		suffix := ""
+		if ob.Witness == "" {
+			suffix = " no-failing-input-found"
+		}
+		fmt.Printf("FAILED %s: %s\n       %s\n", ob.Name, ob.Descr, strings.ReplaceAll(firstLines(ob.Detail, 6), "\n", "\n       "))
+		fmt.Printf("VIOLATION property=%s replay=%s%s\n", prop, p, suffix)
 	}
+	var unmodelled, abstracted, notes, externs []string
 	for _, fc := range r.fcs {
+		if !funcs[fc.qname] {
+			continue
+		}
 		for _, e := range fc.errors {
-			fmt.Printf("GENERATOR-ERROR %s: %s\n", fc.qname, e)
+			genErrors = append(genErrors, fc.qname+": "+e)
+		}
+		for _, u := range sortedKeys(fc.unmodelled) {
+			unmodelled = append(unmodelled, fc.qname+": "+u)
+		}
+		for _, a := range fc.abstracted {
+			abstracted = append(abstracted, fc.qname+": "+a)
+		}
+		for _, n := range fc.notes {
+			notes = append(notes, fc.qname+": "+n)
+		}
+		for _, e := range sortedKeys(fc.externs) {
+			externs = append(externs, e)
 		}
 	}
-	fmt.Printf("%s: %d obligations, %d discharged, %d failed, %.1fs\n", prop, len(sel), len(sel)-failed, failed, time.Since(start).Seconds())
-	if failed > 0 {
+	for _, sf := range r.w.specList {
+		if sf.err != "" {
+			genErrors = append(genErrors, "spec function "+sf.fn.Name()+": "+sf.err)
+		}
+	}
+	genErrors = uniqSorted(genErrors)
+	for _, e := range genErrors {
+		// a generator error means the proof does not cover the code that runs
+		violations++
+		p, _ := maybeReplay(*noEvidence, &Replay{Property: prop, Obligation: "generator-error", Kind: "generator", Description: "the condition generator could not translate code or contract", Status: "error", SolverOut: e, NoInput: true})
+		fmt.Printf("GENERATOR-ERROR %s\n", e)
+		fmt.Printf("VIOLATION property=%s replay=%s no-failing-input-found\n", prop, p)
+	}
+	if nObl == 0 && nBounded == 0 && violations == 0 {
+		violations++
+		fmt.Printf("no obligations were generated for %s (vacuous check)\n", prop)
+		p, _ := maybeReplay(*noEvidence, &Replay{Property: prop, Obligation: "no-obligations", Kind: "vacuity", Description: "no obligations generated", Status: "error", NoInput: true})
+		fmt.Printf("VIOLATION property=%s replay=%s no-failing-input-found\n", prop, p)
+	}
+	wall := time.Since(start).Seconds()
+	fnames := sortedKeys(funcs)
+	level := manifestLevel(prop)
+	cov := map[string]interface{}{
+		"obligations":              nObl,
+		"discharged":               nDis,
+		"checker_cmd":              "/verif/bin/govc check " + prop + " --tier " + *tier,
+		"trusted_base":             trustedBase(),
+		"samples":                  samples,
+		"functions_under_contract": fnames,
+		"backends":                 backends,
+		"solver_time_s":            float64(solverMs) / 1000.0,
+		"vacuity_canaries":         nCanary,
+		"bounded":                  boundedList,
+		"bounded_total":            nBounded,
+		"bounded_passed":           nBoundedOK,
+		"known_findings":           known,
+		"assumed_extern_contracts": uniqSorted(externs),
+		"unmodelled_calls":         uniqSorted(unmodelled),
+		"abstracted_statements":    uniqSorted(abstracted),
+		"notes":                    uniqSorted(notes),
+		"explanation":              propExplanation(prop),
+		"evaluations":              nObl + nBounded,
+		"distinct_nontrivial":      nObl + nBounded,
+		"rule":                     "one case = one named proof obligation generated from /repo's current source (distinct by name; canaries excluded); bounded stand-ins are listed separately under `bounded` and never counted in obligations/discharged",
+	}
+	ev := &Evidence{PropertyID: prop, Tier: *tier, Seed: seedFromEnv(), Level: level, Coverage: cov, Assumptions: assumptionsFor(uniqSorted(externs), uniqSorted(unmodelled)), WallS: wall, Violations: violations}
+	if !*noEvidence {
+		if err := writeEvidence(ev); err != nil {
+			fmt.Println("cannot write evidence:", err)
+			return 2
+		}
+	}
+	fmt.Printf("%s [%s]: %d obligations, %d discharged, %d bounded (%d ok), %d known findings, %d violations, %.1fs\n", prop, *tier, nObl, nDis, nBounded, nBoundedOK, len(known), violations, wall)
+	if violations > 0 {
 		return 1
 	}
 	return 0
+}
+
+func maybeReplay(skip bool, rp *Replay) (string, error) {
+	if skip {
+		return replayPath(rp.Property, rp.Obligation), nil
+	}
+	return writeReplay(rp)
+}
+
+func firstLine(s string) string { return firstLines(s, 1) }
+
+func firstLines(s string, n int) string {
+	ls := strings.Split(s, "\n")
+	if len(ls) > n {
+		ls = ls[:n]
+	}
+	return strings.Join(ls, "\n")
+}
+
+func trustedBase() []string {
+	return []string{
+		"govc (this generator): translation of the Go subset to verification conditions, library ghost models (strings.Builder/bytes.Buffer/bufio.Scanner/fmt.Sprint*), path enumeration",
+		"SMT solvers z3 4.8.12, z3 5.1.0, cvc5 1.0.3 (an obligation counts as discharged when one of them answers unsat)",
+		"go/packages + go/types (golang.org/x/tools v0.29.0) as the front end",
+		"spec functions are total and terminating Go functions (compiled under -tags verif)",
+		"no aliasing between distinct pointer/slice parameters; pointer receivers and pointer parameters are non-nil",
+		"integers are mathematical in the solver; int parameters assumed within 64-bit range, uint8 arithmetic wraps modulo 256 exactly",
+	}
+}
+
+func assumptionsFor(externs, unmodelled []string) []string {
+	out := append([]string{}, trustedBase()...)
+	for _, e := range externs {
+		out = append(out, "assumed (extern) contract: "+e)
+	}
+	if len(unmodelled) > 0 {
+		out = append(out, fmt.Sprintf("%d call sites are unmodelled (results havoc'd): see coverage.unmodelled_calls", len(unmodelled)))
+	}
+	return out
 }
